@@ -17,6 +17,7 @@ import io
 import itertools
 import os
 import re
+import sys
 import traceback
 
 from vmon import reach
@@ -40,10 +41,16 @@ REQUIRE = {
     "oracle_d_garbage_streams": 150,
     "oracle_e_get_input_cases": 300,
     "oracle_e_realfd_cases": 60,
+    "oracle_e_get_input_fds_cases": 300,
+    "oracle_e_resize_wakeups_while_pending": 500,
+    "oracle_e_equal_with_resize_while_pending": 500,
+    "oracle_b_esc_prefixed_table_judged": 1404,
+    "oracle_b_esc_prefixed_meta_named_judged": 300,
+    "oracle_a_event_names_checked": 100000,
     "table_entries_seen": 400,
-    "x10_reports": 2000,
-    "sgr_reports": 2000,
-    "cpr_reports": 300,
+    "x10_reports": 1000,
+    "sgr_reports": 1500,
+    "cpr_reports": 100,
     "oracle_d_garbage_tokens_passed": 150,
     "oracle_e_equal": 200,
     "mode:utf8": 500,
@@ -63,7 +70,9 @@ RULE = (
     "SGR reports over button codes 0..255 x M/m x coordinates, CPR, UTF-8 scalars of all lengths / double-byte "
     "characters / 8-bit bytes, all C0 controls, ESC-prefixed (meta) forms, malformed and truncated sequences, invalid "
     "UTF-8, random byte soup and mutated token streams; every stream of <= 12 bytes gets all 1-cuts and all 2-cut "
-    "pairs x all fire patterns, longer ones random k-cuts; distinct = distinct (mode, bytes, cuts, fires); "
+    "pairs x all fire patterns, longer ones random k-cuts; on the blocking get_input path the schedule also contains "
+    "SIGWINCH wake-ups of the resize pipe after cuts (real _sigwinch_handler; descriptors real or virtual); ESC + every "
+    "named sequence in all three modes against the absolute rule; distinct = distinct (mode, bytes, cuts, fires, resizes, path); "
     "non-trivial = at least one byte delivered"
 )
 ASSUMES = [
@@ -72,7 +81,13 @@ ASSUMES = [
     "motion-without-button, no wheel release; a CPR that is textually a table entry (ESC[1;2R = 'shift f3') is ambiguous "
     "and not judged; ESC followed by a mouse report / a 'meta ...' key / a CPR has no documented name and is judged for "
     "totality and fragmentation only",
-    "'meta' rule from the documentation (ALT+J -> 'meta j'): ESC + key -> 'meta <key>', also for ESC + named sequence",
+    "'meta' rule from the documentation (ALT+J -> 'meta j'): ESC + key -> 'meta <key>', also for ESC + named sequence; a key "
+    "carries 'meta' at most once, so ESC before a name that already contains 'meta ' (or before esc / a report) is its own "
+    "'esc' event (tests/test_escapes.py test_esc_meta_1, test_bug_104): ESC+S -> ['meta '+N] if 'meta ' not in N else ['esc', N]",
+    "documented event-name grammar: modifiers shift/meta/ctrl each at most once, then a base key of the name table / tab, "
+    "enter, backspace, esc / one character (two in a wide encoding) / '<n>' pass-through; every event of every delivery is checked",
+    "a SIGWINCH wake-up while bytes are pending is not a timeout: 'window resize' events are removed before comparing with the "
+    "event-loop path, and at least one must be reported per case with a wake-up",
     "an SGR report with three decimal fields but a zero coordinate (ESC[<0;0;0M -> x=y=-1) is outside the 1-based protocol; the "
     "documentation allows coordinates 'one position off the screen', so it is not judged (neither as report nor as garbage)",
     "pass-through of a malformed escape sequence = 'meta <first char>' followed by one event per remaining byte; names "
@@ -153,6 +168,7 @@ class Env:
         escape.process_keyqueue = pkq
         self.model = M.Model(list(escape.input_sequences))
         self.gi = None  # get_input screens
+        self.names_ok = {m: set() for m in MODES}  # event names already validated against the grammar
 
     def close(self):
         self.escape.process_keyqueue = self.orig_pkq
@@ -180,7 +196,7 @@ class Env:
 
 
 class Delivery:
-    __slots__ = ("events", "raw", "steps", "error", "problems", "left_pending", "flushed", "calls")
+    __slots__ = ("events", "raw", "steps", "error", "problems", "left_pending", "flushed", "calls", "resize_events", "resize_while_pending", "names_checked")
 
     def __init__(self):
         self.events = []
@@ -191,6 +207,9 @@ class Delivery:
         self.left_pending = 0
         self.flushed = 0
         self.calls = 0
+        self.resize_events = 0
+        self.names_checked = 0
+        self.resize_while_pending = 0
 
 
 _NUM = re.compile(r"\d+")
@@ -287,6 +306,18 @@ def deliver(env: Env, mode, data: bytes, cuts=(), fires=()) -> Delivery:
             run = st[1]
             if not run or not all((isinstance(e, str) and e) or isinstance(e, tuple) for e in run):
                 d.problems.append(("step|empty-or-illtyped-events", f"step {st!r}"))
+        # only documented event names may ever be produced
+        ok, bases = env.names_ok[mode], env.model.bases
+        for e in d.events:
+            if e not in ok:
+                why = M.name_problem(e, bases, mode)
+                if why is None:
+                    if len(ok) < 200000:
+                        ok.add(e)
+                else:
+                    d.problems.append((f"names|undocumented-event-name|{why}", f"event {e!r} from input {list(data)} in {mode} mode"))
+                    break
+        d.names_checked = len(d.events)
     return d
 
 
@@ -308,7 +339,7 @@ class GetInputRig:
         if self.screen is not None:
             self.screen.stop()
         s = self.env.raw.Screen(input=self.rfile, output=io.StringIO())
-        s.set_input_timeouts(max_wait=0, complete_wait=0)
+        s.set_input_timeouts(max_wait=0, complete_wait=0, resize_wait=0)
         s.start()
         self.screen = s
         self.dirty = False
@@ -327,7 +358,12 @@ class GetInputRig:
         os.close(self.w)
 
 
-def deliver_get_input(env: Env, mode, data: bytes, cuts=(), fires=(), real=False) -> Delivery:
+def deliver_get_input(env: Env, mode, data: bytes, cuts=(), fires=(), real=False, resizes=(), fds=False) -> Delivery:
+    """blocking path.  real: whole data written to the pipe, nothing stubbed.  Otherwise a schedule of events
+    (chunk arrives / SIGWINCH wakes the resize pipe / the wait times out) is consumed one event per
+    _wait_for_input_ready call made by get_input: fds=False answers the wait from the schedule (virtual),
+    fds=True applies the event to the real descriptors (os.write to the input pipe, the real _sigwinch_handler)
+    and then lets the real selector-based wait run with all timeouts 0."""
     env.set_mode(mode)
     if env.gi is None:
         env.gi = GetInputRig(env)
@@ -336,25 +372,42 @@ def deliver_get_input(env: Env, mode, data: bytes, cuts=(), fires=(), real=False
     d = Delivery()
     bounds = [0, *cuts, len(data)]
     queue = []
+    if 0 in resizes:
+        queue.append(("resize", 0))
     for i in range(len(bounds) - 1):
         queue.append(("chunk", data[bounds[i] : bounds[i + 1]]))
+        if bounds[i + 1] in resizes:
+            queue.append(("resize", bounds[i + 1]))
         if bounds[i + 1] in fires or i == len(bounds) - 2:
             queue.append(("expire", bounds[i + 1]))
     arrived = []
     state = {"expired": False, "delivered": 0}
+    real_wait = s._wait_for_input_ready
 
     def wait(timeout):
+        if fds and sys._getframe(1).f_code.co_name != "get_input":
+            return real_wait(timeout)  # the nested readiness probe of _read_raw_input
         if state.get("silent"):
-            return []
-        if queue and queue[0][0] == "chunk":
+            return real_wait(timeout) if fds else []
+        kind = queue[0][0] if queue else "expire"
+        if kind == "chunk":
             c = queue.pop(0)[1]
-            arrived.append(c)
             state["delivered"] += len(c)
+            if fds:
+                os.write(rig.w, c)
+                return real_wait(timeout)
+            arrived.append(c)
             return [rig.r]
+        if kind == "resize":
+            queue.pop(0)
+            if s._partial_codes:
+                d.resize_while_pending += 1
+            s._sigwinch_handler(28, None)  # the real handler: marks _resized and wakes the resize pipe
+            return real_wait(timeout) if fds else [s._resize_pipe_rd.fileno()]
         if queue:
             queue.pop(0)
         state["expired"] = True
-        return []
+        return real_wait(timeout) if fds else []
 
     def codes():
         out = [b for c in arrived for b in c]
@@ -377,7 +430,8 @@ def deliver_get_input(env: Env, mode, data: bytes, cuts=(), fires=(), real=False
                 rig.dirty = True
         else:
             s._wait_for_input_ready = wait
-            s._get_input_codes = codes
+            if not fds:
+                s._get_input_codes = codes
             guard = 0
             while queue and guard < 4 * len(bounds) + 8:
                 guard += 1
@@ -409,9 +463,13 @@ def deliver_get_input(env: Env, mode, data: bytes, cuts=(), fires=(), real=False
     finally:
         s.__dict__.pop("_wait_for_input_ready", None)
         s.__dict__.pop("_get_input_codes", None)
+    d.resize_events = sum(1 for e in d.events if e == "window resize")
+    d.events = [e for e in d.events if e != "window resize"]
+    if d.error is None and not d.problems and resizes and not d.resize_events:
+        d.problems.append(("get_input|resize-wakeup-not-reported", f"{len(resizes)} SIGWINCH delivered, no 'window resize' event"))
     if d.problems or d.error:
         rig.dirty = True
-        if real:  # drain the pipe
+        if real or fds:  # drain the pipe
             rig.close()
             env.gi = None
     elif bytes(d.raw) != data:
@@ -483,6 +541,7 @@ class Judge:
         if d is None:
             d = deliver(self.env, mode, data)
             self.cnt("deliveries")
+            self.cnt("oracle_a_event_names_checked", d.names_checked)
             if len(self.cache) > 400:
                 self.cache.clear()
             self.cache[key] = d
@@ -537,6 +596,7 @@ class Judge:
             if cuts:
                 f = deliver(env, mode, data, cuts, fires)
                 self.cnt("deliveries")
+                self.cnt("oracle_a_event_names_checked", f.names_checked)
                 self.cnt("oracle_a_partition_checks")
                 self.cnt("oracle_c_cut_left_pending", f.left_pending)
                 self.cnt("oracle_c_timer_flushed_pending", f.flushed if fires else 0)
@@ -572,19 +632,33 @@ class Judge:
             return out
         # ---- (e) blocking path
         real = path == "realfd"
-        g = deliver_get_input(env, mode, data, () if real else cuts, () if real else fires, real=real)
-        self.cnt("oracle_e_realfd_cases" if real else "oracle_e_get_input_cases")
+        fds = path == "get_input_fds"
+        resizes = [] if real else [r for r in case.get("resizes", ()) if r == 0 or r in cuts]
+        g = deliver_get_input(env, mode, data, () if real else cuts, () if real else fires, real=real, resizes=resizes, fds=fds)
+        self.cnt("oracle_e_realfd_cases" if real else ("oracle_e_get_input_fds_cases" if fds else "oracle_e_get_input_cases"))
+        self.cnt("oracle_e_resize_wakeups", len(resizes))
+        self.cnt("oracle_e_resize_wakeups_while_pending", g.resize_while_pending)
         if g.error is not None:
             return [(self.err_sig(g, mode, "get_input"), f"get_input on {list(data)} cuts={cuts} fires={fires}: {g.error[3]}")]
         for tail, msg in g.problems:
-            out.append((f"C05|{tail}", f"{mode} {list(data)} cuts={cuts} fires={fires} path={path}: {msg}"))
+            out.append((f"C05|{tail}", f"{mode} {list(data)} cuts={cuts} fires={fires} resizes={resizes} path={path}: {msg}"))
         if out:
             return out
         ref = w if real or not cuts else deliver(env, mode, data, cuts, fires)
         if ref.error is None and g.events != ref.events:
-            out.append((f"C05|get_input|events-differ-from-event-loop-path|{'realfd' if real else 'virtual'}", f"{mode} {list(data)} cuts={cuts} fires={fires}: get_input {g.events} vs parse_input {ref.events}"))
+            # was a pending sequence decoded early because of a resize wake-up?
+            plain = None
+            if resizes:
+                plain = deliver_get_input(env, mode, data, cuts, fires, resizes=(), fds=fds)
+            if plain is not None and plain.error is None and not plain.problems and plain.events == ref.events:
+                sig = "C05|get_input|resize-wakeup-changes-decoding|" + ("pending-decoded-before-timeout" if g.resize_while_pending else "nothing-pending")
+            else:
+                sig = f"C05|get_input|events-differ-from-event-loop-path|{'realfd' if real else ('fds' if fds else 'virtual')}"
+            out.append((sig, f"{mode} {list(data)} cuts={cuts} fires={fires} SIGWINCH-after={resizes}: get_input (minus 'window resize') {g.events} vs parse_input {ref.events}"))
         else:
             self.cnt("oracle_e_equal")
+            if g.resize_while_pending:
+                self.cnt("oracle_e_equal_with_resize_while_pending")
         return out
 
     def naming_violation(self, mode, data, toks, spans, exp, w):
@@ -622,7 +696,10 @@ def _norm_case(case, env):
     data = env.model.stream(case["descs"], case["mode"])[0]
     cuts = sorted({c for c in case.get("cuts", ()) if 0 < c < len(data)})
     fires = sorted({f for f in case.get("fires", ()) if f in cuts})
-    return {"path": case.get("path", "loop"), "mode": case["mode"], "descs": case["descs"], "cuts": cuts, "fires": fires}
+    out = {"path": case.get("path", "loop"), "mode": case["mode"], "descs": case["descs"], "cuts": cuts, "fires": fires}
+    if case.get("resizes"):
+        out["resizes"] = sorted({r for r in case["resizes"] if r == 0 or r in cuts})
+    return out
 
 
 def shrink(env: Env, case, sig, budget=150):
@@ -641,8 +718,8 @@ def shrink(env: Env, case, sig, budget=150):
     while changed and budget > 0:
         changed = False
         # fewer cuts / fires
-        for key in ("fires", "cuts"):
-            for x in list(case[key]):
+        for key in ("resizes", "fires", "cuts"):
+            for x in list(case.get(key, ())):
                 c2 = dict(case, **{key: [y for y in case[key] if y != x]})
                 c2 = _norm_case(c2, env)
                 if budget > 0 and still(c2):
@@ -653,7 +730,7 @@ def shrink(env: Env, case, sig, budget=150):
             data, toks, _e, spans = env.model.stream(case["descs"], case["mode"])
             a, b = spans[i]
             shift = lambda c: c if c <= a else (a if c < b else c - (b - a))  # noqa: E731
-            c2 = dict(case, descs=case["descs"][:i] + case["descs"][i + 1 :], cuts=[shift(c) for c in case["cuts"]], fires=[shift(c) for c in case["fires"]])
+            c2 = dict(case, descs=case["descs"][:i] + case["descs"][i + 1 :], cuts=[shift(c) for c in case["cuts"]], fires=[shift(c) for c in case["fires"]], resizes=[shift(c) for c in case.get("resizes", ())])
             c2 = _norm_case(c2, env)
             if c2["descs"] and still(c2):
                 case, changed = c2, True
@@ -673,7 +750,7 @@ def shrink(env: Env, case, sig, budget=150):
                 shift = lambda c: c if c <= pos else c - 1  # noqa: E731
                 nd = list(case["descs"])
                 nd[ti] = ["raw", bs[:k] + bs[k + 1 :]]
-                c2 = _norm_case(dict(case, descs=nd, cuts=[shift(c) for c in case["cuts"]], fires=[shift(c) for c in case["fires"]]), env)
+                c2 = _norm_case(dict(case, descs=nd, cuts=[shift(c) for c in case["cuts"]], fires=[shift(c) for c in case["fires"]], resizes=[shift(c) for c in case.get("resizes", ())]), env)
                 if still(c2):
                     case, changed = c2, True
                 else:
@@ -689,7 +766,7 @@ def repro_code(env, case):
         f"urwid.set_encoding({M.MODE_ENCODING[case['mode']]!r}); s=urwid.display.raw.Screen(input=object(),output=io.StringIO()); "
         f"chunks={[list(c) for c in chunks]!r}; fire_after_cut={case['fires']!r}  # feed each chunk via s._get_input_codes + "
         f"s.parse_input(loop, cb, s.get_available_raw_input()), call the alarm callback where fired and at the end"
-        + ("; path=" + case["path"] if case["path"] != "loop" else "")
+        + ("; path=" + case["path"] + (f"; SIGWINCH (real _sigwinch_handler) right after cut {case['resizes']}, before the next chunk" if case.get("resizes") else "") if case["path"] != "loop" else "")
     )
 
 
@@ -881,6 +958,9 @@ def schedules_random(rng, n, count):
 # ------------------------------------------------------------------ workload
 
 
+TALLY = {"x10": "x10_reports", "sgr": "sgr_reports", "cpr": "cpr_reports", "utf8": "utf8_chars", "dbcs": "dbcs_chars"}
+
+
 class Runner:
     def __init__(self, ctx, env):
         self.ctx = ctx
@@ -926,8 +1006,10 @@ class Runner:
                 case_out = _norm_case(case, self.env)
             ctx.violation(sig, msg + "\nrepro: " + repro_code(self.env, case_out), case_out)
 
-    def one(self, mode, descs, cuts=(), fires=(), path="loop"):
+    def one(self, mode, descs, cuts=(), fires=(), path="loop", resizes=()):
         case = {"path": path, "mode": mode, "descs": descs, "cuts": list(cuts), "fires": list(fires)}
+        if resizes:
+            case["resizes"] = list(resizes)
         found = self.judge.judge(case)
         if found:
             self.report(case, found)
@@ -943,6 +1025,12 @@ class Runner:
         self.nstream += 1
         ctx.count("streams")
         ctx.count(f"mode:{mode}")
+        for dd in descs:
+            dd = dd[1] if dd[0] == "meta" else dd
+            if dd[0] == "sgr" and (dd[2] < 1 or dd[3] < 1):
+                ctx.count("sgr_zero_coordinate_reports_unjudged")
+            elif dd[0] in TALLY:
+                ctx.count(TALLY[dd[0]])
         ctx.count("bytes_fed", n)
         hx = data.hex()
         ctx.case((mode, hx))
@@ -962,8 +1050,11 @@ class Runner:
         k = self.nstream
         if k % 5 == 0:
             cuts, fires = next(schedules_random(rng, n, 1)) if n > 1 else ([], [])
-            ctx.case((mode, hx, cuts, fires, "gi"))
-            self.one(mode, descs, cuts, fires, path="get_input")
+            # SIGWINCH wake-ups are schedule events too: after some cuts the resize pipe becomes ready before the remainder
+            resizes = [c for c in cuts if rng.random() < 0.5] + ([0] if rng.random() < 0.1 else [])
+            gpath = "get_input" if (k // 5) % 2 else "get_input_fds"
+            ctx.case((mode, hx, cuts, fires, resizes, gpath))
+            self.one(mode, descs, cuts, fires, path=gpath, resizes=resizes)
         if k % 23 == 0 and n <= 2048:
             ctx.case((mode, hx, "realfd"))
             self.one(mode, descs, path="realfd")
@@ -997,6 +1088,21 @@ def enumerations(ctx, R: Runner):
             ctx.count("table_entries_seen")
             ctx.count("enumeration_items:E0")
             R.stream("utf8", [["seq", seq]], sched="exhaustive", pairs=False)
+            # blocking path: a read ends inside the sequence, SIGWINCH wakes get_input, then the rest arrives in time
+            n = len(seq) + 1
+            for c in sorted({1, n // 2 or 1, n - 1}):
+                ctx.case(("utf8", seq, c, "gi-resize"))
+                R.one("utf8", [["seq", seq]], [c], [], path="get_input_fds" if c % 2 else "get_input", resizes=[c])
+    # E0b core, never skipped: ESC in front of every named sequence, all three modes, judged against the rule
+    # ['meta '+N] if N carries no 'meta ' else ['esc', N]  (absolute reference, not split-vs-whole)
+    for seq in model.named:
+        for mode in MODES:
+            if mine():
+                before = ctx.counters["oracle_b_naming_streams"]
+                R.stream(mode, [["meta", ["seq", seq]]], sched="exhaustive" if mode == "utf8" else "none", pairs=False)
+                ctx.count("oracle_b_esc_prefixed_table_judged", ctx.counters["oracle_b_naming_streams"] - before)
+                if "meta " in model.table[seq]:
+                    ctx.count("oracle_b_esc_prefixed_meta_named_judged", ctx.counters["oracle_b_naming_streams"] - before)
     # E1 every named sequence, alone (all cuts and cut pairs x fire patterns) in every mode, and embedded
     for si, seq in enumerate(model.named):
         for mi, mode in enumerate(MODES):
@@ -1007,6 +1113,7 @@ def enumerations(ctx, R: Runner):
         if mine():
             S("narrow", [["meta", ["seq", seq]], ["byte", 48]], sched="exhaustive", pairs=False)
     ctx.sample({"mode": "utf8", "descs": [["seq", "[1;5A"]], "cuts": [3], "fires": [3]})
+    ctx.extra.setdefault("core_wall_s", round(ctx.elapsed(), 1))
     mark("before E7")
     # E7 every byte value alone and in context; E8 ESC + every byte
     for v in range(256):
@@ -1124,18 +1231,12 @@ def enumerations(ctx, R: Runner):
         order += [((i + 0.5) / n, sec, i) for i in range(n)]
     order.sort()
     frac = 0.7 if q else 0.6
-    tally = {"x10": "x10_reports", "sgr": "sgr_reports", "cpr": "cpr_reports", "utf8": "utf8_chars", "dbcs": "dbcs_chars"}
     for _pos, sec, i in order:
         _sec, mode, descs, k = per[sec][i]
         if not ctx.more(frac):
             ctx.count("enumeration_items_skipped_for_time")
             continue
         ctx.count(f"enumeration_items:{sec}")
-        for d in descs:
-            if d[0] == "sgr" and (d[2] < 1 or d[3] < 1):
-                ctx.count("sgr_zero_coordinate_reports_unjudged")
-            elif d[0] in tally:
-                ctx.count(tally[d[0]])
         R.stream(mode, descs, **k)
     ctx.extra["enumeration_items_total_this_shard0"] = len(items)
 
@@ -1194,7 +1295,7 @@ def replay(ctx, wit):
     env = Env()
     try:
         R = Runner(ctx, env)
-        R.one(wit["mode"], wit["descs"], wit.get("cuts", ()), wit.get("fires", ()), wit.get("path", "loop"))
+        R.one(wit["mode"], wit["descs"], wit.get("cuts", ()), wit.get("fires", ()), wit.get("path", "loop"), wit.get("resizes", ()))
         ctx.case((wit["mode"], wit["descs"], wit.get("cuts"), wit.get("fires")))
     finally:
         env.close()
